@@ -10,6 +10,7 @@ import Gv.Proofs.PhylipOutcome
 import Gv.Proofs.ClustalOutcome
 import Gv.Proofs.NexusOutcome
 import Gv.Proofs.NexusNoHang
+import Gv.Proofs.ClustalNoHang
 import Gv.Proofs.PartitionOutcome
 /-!
 C03 — parsers terminate on every input with an error or a well-formed result.
@@ -493,6 +494,30 @@ theorem nexus_outcome_fixed (f : Nexus.Facts) (hc : f.commentStopsAtEof = true) 
   | error => trivial
   | exit => trivial
   | panic => exact absurd hp h2.1
+  | hang => exact absurd hp h3
+
+/-- Clustal (with or without the row-index repair) never hangs: the fuel of every loop of the model is proved
+sufficient (measure: remaining bytes + 1 for a pushed-back token other than EOF) -/
+theorem clustal_no_hang (c : Bool) (o : POpts) (bs : List Byte) : Clustal.parse c o bs ≠ .hang :=
+  Gv.Proofs.ClustalNoHang.parse_nh c o bs
+
+/-- **Clustal with the row-index repair** (commit e77b337), all byte strings and options: the outcome is an
+explicit error, an exit with a message (lone `\r`), or a non-empty rectangular alignment with pairwise
+distinct names — never a panic, never a hang.  (Still open for the full `Good`: "at least one column".) -/
+theorem clustal_outcome_fixed_partial (o : POpts) (bs : List Byte) :
+    match Clustal.parse true o bs with
+    | .ok a => a.rows ≠ [] ∧ (∀ r ∈ a.rows, (r.2.length : Int) = a.length) ∧
+               Spec.Fmt.distinct (a.rows.map (·.1)) = true
+    | .error | .exit => True
+    | .panic | .hang => False := by
+  have h1 := clustal_outcome_partial true o bs
+  have h2 := clustal_no_panic o bs
+  have h3 := clustal_no_hang true o bs
+  cases hp : Clustal.parse true o bs with
+  | ok a => rw [hp] at h1; exact h1
+  | error => trivial
+  | exit => trivial
+  | panic => exact absurd hp h2
   | hang => exact absurd hp h3
 
 end Gv.Props.C03
